@@ -28,8 +28,11 @@ MIN_NONTRIVIAL = {"quick": 1500, "thorough": 18000}
 ASSUMPTIONS = [
     "families are y - h(y) with h a q-contraction, q <= 0.6 (holomorphic family: q <= 0.35 inside its invariant ball |y| <= 0.5; convex "
     "objectives: Hessian eigenvalues in [0.6, 1.4] + quartic 0.05*z^4)",
-    "must-be-silent only when f_tol and x_tol >= 200*eps(dtype)*sqrt(N)*(1+|y*|)/(1-q), maxiter is left at its default (or ample for gd/adam) "
-    "not for broyden1/2 on the holomorphic and quartic families (only locally contractive) and not for gd/adam warm starts",
+    "must-be-silent only when f_tol and x_tol >= 200*eps(dtype)*sqrt(N)*(1+|y*|)/(1-q), maxiter is left at its default (300 for broyden warm starts, "
+    "3000/6000 for gd/adam); not for broyden1/2 on the holomorphic and quartic families (only locally contractive), not for gd/adam warm starts, "
+    "not with f_rtol when y0 is the rounding-level solution (f_rtol is relative to |f(y0)|)",
+    "random initial guesses are N(0,1) per component (holomorphic family: |y0| = 0.4, quartic objective: |y0| = 1); warm starts are the float64 "
+    "reference solution and that solution + 1e-7*N(0,1) (float32: 1e-3)",
     "float32 cases request f_tol, x_tol in {1e-2, 1e-3}",
     "gd/adam are run with step sizes adapted to the known Hessian bounds (gd 0.3-0.5, adam 3e-2) and maxiter 3000/6000",
     "agreement tolerance: 100*f_tol/(1-q) for the root-finding methods and anderson_acc; 1e-6*(1+|y*|) for gd without momentum (x_rtol=1e-9); "
@@ -38,12 +41,14 @@ ASSUMPTIONS = [
 ]
 BUDGET = {"quick": {"worker_timeout": 900, "case_timeout": 120}, "thorough": {"worker_timeout": 3300, "case_timeout": 300}}
 REQUIRED_COUNTERS = {
-    "quick": {"silent_results_checked": 400, "warned_results": 30, "must_silent_cases": 300, "history_located": 300,
-              "exact_root_after_step": 8, "exact_root_at_start": 8, "complex_cases": 40, "line_search_off": 60,
-              "objective_clause_checked": 60, "reference_compared": 300, "user_function_evaluations": 5000},
-    "thorough": {"silent_results_checked": 5000, "warned_results": 300, "must_silent_cases": 3000, "history_located": 3000,
-                 "exact_root_after_step": 40, "exact_root_at_start": 40, "complex_cases": 400, "line_search_off": 600,
-                 "objective_clause_checked": 600, "reference_compared": 3000, "user_function_evaluations": 50000},
+    "quick": {"silent_results_checked": 1000, "warned_results": 150, "must_silent_cases": 900, "history_located": 900,
+              "exact_root_after_step": 40, "exact_root_at_start": 60, "complex_cases": 300, "line_search_off": 400,
+              "objective_clause_checked": 250, "reference_compared": 900, "user_function_evaluations": 60000,
+              "forced_warning_path": 100, "method_gd": 50, "method_adam": 50, "method_anderson_acc": 60},
+    "thorough": {"silent_results_checked": 10000, "warned_results": 2000, "must_silent_cases": 8000, "history_located": 8000,
+                 "exact_root_after_step": 400, "exact_root_at_start": 400, "complex_cases": 4000, "line_search_off": 5000,
+                 "objective_clause_checked": 3000, "reference_compared": 9000, "user_function_evaluations": 800000,
+                 "forced_warning_path": 1500, "method_gd": 600, "method_adam": 600, "method_anderson_acc": 800},
 }
 
 RF = ["newton", "broyden1", "broyden2", "linearmixing"]
